@@ -57,6 +57,12 @@ Definition bcompat (s t : list nat) : Prop :=
   let n := Nat.max (length s) (length t) in
   Forall2 (fun a b => a = b \/ a = 1 \/ b = 1) (lpad n s) (lpad n t).
 
+Fixpoint forallb2 {A B} (f : A -> B -> bool) (l : list A) (m : list B) : bool :=
+  match l, m with a :: l', b :: m' => f a b && forallb2 f l' m' | [], [] => true | _, _ => false end.
+Definition bcompatb (s t : list nat) : bool :=
+  let n := Nat.max (length s) (length t) in
+  forallb2 (fun a b => (a =? b) || (a =? 1) || (b =? 1)) (lpad n s) (lpad n t).
+
 (* operand index for output index idx: drop the leading output axes the operand does not have,
    size-1 dims -> 0 *)
 Definition sel (i d : nat) : nat := if d =? 1 then 0 else i.
